@@ -140,7 +140,7 @@ PROPS = {
         "theorems": ["ArgMapper.C16.last_wins", "ArgMapper.C16.build_ok", "ArgMapper.C16.nil_option", "ArgMapper.C16.nil_value_ignored", "ArgMapper.C16.case_insensitive", "ArgMapper.C16.lower_idem", "ArgMapper.C16.call_overrides_default", "ArgMapper.C16.permutation"],
         "modules": ["ArgMapper.Props.C16"],
         "rule": "opts: at least one option.",
-        "runs": {"quick": [fam("opts", 2000, 8)], "thorough": [fam("opts", 100000, 10), fam("opts", 50000, 5)]},
+        "runs": {"quick": [fam("opts", 2000, 8), fam("redef", 300, 0), fam("call", 300, 0, "general")], "thorough": [fam("opts", 100000, 10), fam("opts", 50000, 5), fam("redef", 20000, 0), fam("call", 20000, 0, "general")]},
     },
     "C17": {
         "claim": "Theorems about Result.Len/Out/Err for any list of returned values with or without a final error, and for resolution failures. Tied to the code by differential runs over result arities 0-5 with error / concrete-error / value results in every position.",
@@ -148,7 +148,7 @@ PROPS = {
         "theorems": ["ArgMapper.C17.partition_err", "ArgMapper.C17.partition_plain", "ArgMapper.C17.resolution_failure"],
         "modules": ["ArgMapper.Props.C17"],
         "rule": "result: any scenario (arity 0 included).",
-        "runs": {"quick": [fam("result", 2000, 5), fam("hist", 500, 0)], "thorough": [fam("result", 100000, 5), fam("hist", 40000, 0)]},
+        "runs": {"quick": [fam("result", 2000, 5), fam("hist", 500, 0), fam("redef", 300, 0)], "thorough": [fam("result", 100000, 5), fam("hist", 40000, 0), fam("redef", 20000, 0)]},
         "exhaustive": {"quick": False, "thorough": False},
     },
     "C01": {
@@ -240,8 +240,8 @@ PROPS = {
         "note": "partial: the concurrent clause is decided by exploration under the race detector.",
         "theorems": ["ArgMapper.C11.once_at_most_once", "ArgMapper.C11.first_result_kept", "ArgMapper.C11.memo_hit", "ArgMapper.C11.reuse_never_panics", "ArgMapper.C11.counterexample_ptr_result", "ArgMapper.C12.once_concurrent", "ArgMapper.C12.lock_holder_progresses", "ArgMapper.C12.counterexample_two_first_uses"], "facts": {"r5SkipSame": "true", "r6NameTest": "true", "publishAfterUpdate": "true", "trackReaching": "true", "takeValuedNamed": "true", "hopCopies": "true", "memoCopy": "true", "r8SkipSupplied": "true", "skipRecordsInput": "false", "dupIsError": "true", "onceLockCoversCall": "true"},
         "rule": "hist: a run-once function was needed at least once.",
-        "runs": {"quick": [fam("hist", 800, 0), fam("race", 60, 4, "20", bin="harness-race")],
-                 "thorough": [fam("hist", 60000, 0), fam("race", 2000, 8, "60", bin="harness-race"), fam("race", 500, 16, "40", bin="harness-race")]},
+        "runs": {"quick": [fam("hist", 800, 0), fam("redef", 300, 0), fam("race", 60, 4, "20", bin="harness-race")],
+                 "thorough": [fam("hist", 60000, 0), fam("redef", 20000, 0), fam("race", 2000, 8, "60", bin="harness-race"), fam("race", 500, 16, "40", bin="harness-race")]},
     },
     "C12": {
         "claim": "Theorems: lock discipline implies no data race (guarded_race_free); the table of accesses to state outliving a call, regenerated from the sources on every run, obeys it (effects_guarded, by evaluation); the run-once protocol executes the body at most once for every schedule (once_concurrent). Functions, converters and options can be shared by concurrent calls. Decided by exploration under the Go race detector: goroutines Call / Convert / Redefine with one shared target, shared converter objects (run-once ones included) and one shared option slice built from every option constructor; any race report is a violation, and every concurrent outcome must be one a sequential run of the same call produced.",
